@@ -1,5 +1,6 @@
 import gfapy
 import re
+import math
 
 class NumericArray(list):
   """
@@ -80,13 +81,20 @@ class NumericArray(list):
     -------
     one of gfapy.NumericArray.SUBTYPE
     """
+    if len(self) == 0:
+      raise gfapy.ValueError("NumericArray does not contain any value")
     if all([ isinstance(f, float) for f in self]):
+      for f in self:
+        if not math.isfinite(f):
+          raise gfapy.ValueError(
+            "NumericArray contains a non-finite value\n"+
+            "Content: {}".format(repr(self)))
       return "f"
     else:
       e_max = None
       e_min = None
       for e in self:
-        if not isinstance(e, int):
+        if not isinstance(e, int) or isinstance(e, bool):
           raise gfapy.ValueError(
             "NumericArray does not contain homogenous numeric values\n"+
             "Content: {}".format(repr(self)))
@@ -225,5 +233,9 @@ class NumericArray(list):
                       repr(range), repr(elems)))
           yield e
         else:
-          yield float(e)
+          e = float(e)
+          if not valid and not math.isfinite(e):
+            raise gfapy.ValueError("Value is not valid: {}\n".format(e)+
+                "Numeric array string: {}".format(string))
+          yield e
     return cls(list(gen()))
